@@ -345,6 +345,7 @@ class CalSim:
         self.fired = []
         self.policy_log = []
         self.learn_log = []
+        self.timeline = []          # ("policy", value) / ("next", position) in the order the calls returned
 
     # ---- seam callbacks -------------------------------------------------------------------
     _prelude = False
@@ -517,6 +518,7 @@ class CalSim:
             out = orig(self_s)
             pos = next((i for i, s in enumerate(self_s.samplers) if s is out), None)
             sim.next_sampler_log.append((pos, type(out).__name__))
+            sim.timeline.append(("next", pos))
             return out
         return get_next_sampler
 
@@ -526,6 +528,7 @@ class CalSim:
         def policy(self_a, state):
             out = orig(self_a, state)
             sim.policy_log.append(int(out))
+            sim.timeline.append(("policy", int(out)))
             sim.log.add("policy", int(out))
             return out
         return policy
